@@ -1,16 +1,24 @@
+from vf.driver import Cond
 from vf.props import common as C
 
 
 def plan(tier):
-    conds = []
-    conds += C.t_upd_conds("C06", tier, kinds=range(11))
+    conds = C.t_upd_conds("C06", tier, kinds=range(11))
+    conds.append(Cond("vf.h.h_misc", "h_link", case=0, timeout=300, label="H06-link", weight=3))
+    conds.append(Cond("vf.h.h_misc", "h_fold", case=0, timeout=600, label="H06-fold", weight=8))
     return {
         "conds": conds,
         "min_classes": 20,
-        "explanation": "C06: one step changes position only while travelling; odometer grows by the distance of the driven part; vehicle ends at the junction between driven and remaining part; remaining part keeps link id and destination; the point requested from the geometry lies at fraction dt*speed/(3600*length) strictly inside the link; a completed link's whole-second travel time fits in the step; arrival leaves the travelling activity at the next update.",
-        "entry_points": ['step_simulation_ops.step_vehicle (VehicleState.update -> default_update -> move/charge/idle/pick_up_trip/drop_off_trip)'],
-        "bounds": C.ARENA_BOUNDS + C.T_BOUNDS,
-        "outside": C.T_OUTSIDE,
-        "stubs": C.STUBS_COMMON + C.STUBS_UPD,
-        "assumptions": ["pre-state satisfies INV (DESIGN 3.2); INV base case is the loader's initial state"],
+        "explanation": "C06: H06-link: real traverse_up_to with symbolic length, speed from {1,25,40,104.6} km/h, symbolic time: full traversal iff the whole-second travel time fits, "
+                       "remaining time exact; a split keeps link id/start/end, meets at the split cell and requests a point at fraction t*speed/(3600*length) < 1 of the link. "
+                       "H06-fold: real traverse over two links (stale speeds in the route, ground truth from the network): driven ++ remaining == original, junctions join, whole-second "
+                       "times of completed links fit, distance == sum of driven parts, nothing driven after time ran out. T-upd (C06 oracle): position changes only while travelling, "
+                       "odometer grows by the driven distance, vehicle sits at the junction between driven and remaining part, arrival leaves the travelling activity at the next update. "
+                       "traverse is a fold whose accumulator carries only the remaining time, so the 1- and 2-link results extend to routes of any length by induction (argument, not solver-checked).",
+        "entry_points": ["linktraversal.traverse_up_to", "LinkTraversal.travel_time_seconds", "H3Ops.point_along_link", "routetraversal.traverse", "vehicle_state_ops.move", "VehicleState.default_update"],
+        "bounds": ["link length 1 m .. 50 km (symbolic), speeds {1, 25, 40, 104.6} km/h, time 0..7200 s", "routes of 1 and 2 links"] + C.T_BOUNDS[1:],
+        "outside": ["which h3 cell the interpolated point falls in (C library; solver-chosen among cells on the link)", "progress at cell granularity (geometry)",
+                    "great-circle vs. road length of OSM links", "pooling activities"],
+        "stubs": C.STUBS_COMMON + C.STUBS_UPD + ["units.int (inside hours_to_seconds) calls RealBasedSymbolicFloat.__int__ directly: CrossHair's patched int() would realise the float"],
+        "assumptions": ["pre-state satisfies INV"],
     }
